@@ -196,7 +196,9 @@ func C08(p *core.Program, r *core.Report) {
 			}
 		}
 		r.Add("E2", "exactly one promotion site", p.Pos(fl.Pos()), nProm == 1, fmt.Sprintf("%d SetIsContent calls in LeadImageFinder", nProm))
-		calls := core.Calls(lp, func(c ssa.CallInstruction) bool { return core.IsCallTo(c, "(*"+docfilterPkg+".LeadImageFinder).findLeadImage") })
+		calls := core.Calls(lp, func(c ssa.CallInstruction) bool {
+			return core.IsCallTo(c, "(*"+docfilterPkg+".LeadImageFinder).findLeadImage")
+		})
 		okOnce := len(calls) == 1 && !inLoop(calls[0].Block())
 		r.Add("E2", "findLeadImage is called once per Process, outside loops", p.Pos(lp.Pos()), okOnce, fmt.Sprintf("%d calls", len(calls)))
 		// candidate collection loop (second loop of Process)
